@@ -2,15 +2,42 @@ PROPERTY = "C04"
 PACKAGES = ["./bridgesync"]
 B = "github.com/agglayer/aggkit/bridgesync."
 OBLIGATIONS = []
-for n, f, bs, tiers in ((2, 1, range(0, 5), ("quick", "thorough")), (3, 2, range(0, 6), ("thorough",))):
-  for rs in (0, 1):
-    for b in bs:
-        OBLIGATIONS.append(dict(
-            name="C04.a bridge store: %d blocks, reorg at block %d%s, %d fork blocks == store that never saw blocks >= %d" % (n, b, " after a restart" if rs else "", f, b),
-            harness=B + "ZZVerif_C04_BridgeReorg", params={"N": n, "F": f, "B": b, "RESTART": rs}, reach=["end"], time_limit_s=3000,
-            tiers=(("quick", "thorough") if (tiers[0] == "quick" and (b in (1, 2, 3) or rs == 0)) else ("thorough",)),
-            bounds="%d blocks then %d fork blocks, each with 0..1 bridge and 0..1 claim (all field values), reorg point %d, restart before the reorg or not; "
-                   "observation: GetLastProcessedBlock, GetBridges/GetClaims (every sub-range), GetExitRootByIndex, GetRootByLER, GetProof, and the root after one more block" % (n, f, b)))
+
+
+def _lay(digits):
+    v = 0
+    for d in reversed(digits):
+        v = v * 6 + d
+    return v
+
+
+def _desc(digits):
+    return "|".join("%db%s" % (d % 3, "+c" if d >= 3 else "") for d in digits)
+
+
+QUICK = [([1, 2], [2]), ([2, 1], [1]), ([4, 1], [4]), ([0, 5], [1]), ([1, 1], [0])]
+import itertools
+ALL = [(list(a), list(f)) for a in itertools.product(range(6), repeat=2) for f in ([1], [4], [2])]
+seen = set()
+for lay, flay in QUICK + ALL:
+    for rs in (0, 1):
+        for b in (0, 1, 2, 3, 4):
+            key = (tuple(lay), tuple(flay), rs, b)
+            if key in seen:
+                continue
+            seen.add(key)
+            quick = (lay, flay) in QUICK and b in (1, 2, 3) and (rs == 0 or b == 2)
+            thorough = quick or rs == 0 or (lay, flay) in QUICK
+            if not thorough:
+                continue
+            OBLIGATIONS.append(dict(
+                name="C04.a bridge store: blocks [%s], reorg at block %d%s, fork [%s] == store that never saw blocks >= %d"
+                     % (_desc(lay), b, " after a restart" if rs else "", _desc(flay), b),
+                harness=B + "ZZVerif_C04_BridgeReorg",
+                params={"N": len(lay), "F": len(flay), "B": b, "RESTART": rs, "LAYOUT": _lay(lay), "FLAYOUT": _lay(flay)},
+                tiers=("quick", "thorough") if quick else ("thorough",), reach=["end"], time_limit_s=1500,
+                bounds="event layout fixed (b = bridges, c = claim per block), every field value symbolic; observation: GetLastProcessedBlock, "
+                       "GetBridges/GetClaims (every sub-range), GetExitRootByIndex, GetRootByLER, GetProof, and the root after one more block"))
 ASSUMPTIONS = ["SQL model incl. ON DELETE CASCADE only when the DSN built by the real NewSQLiteDB enables foreign keys",
                "Keccak collision-freeness for store keys; bridge leaves are non-zero"]
-OUTSIDE = "LIKE-filtered paged listings; token mappings / legacy token migrations (not yet in the harness); L1 info and injected-GER stores: separate obligations"
+OUTSIDE = "LIKE-filtered paged listings; token mappings / legacy token migrations (not yet in the harness); L1 info and injected-GER stores: pending"
